@@ -428,6 +428,61 @@ class ListLogger(CallTraceLogger):
         self.t.append(t)
 
 
+SESSION_SRC = "def count(x):\n    return x\n\ndef label(x):\n    return str(x)\n\ndef price(x):\n    return x * 1.5\n\ndef total(x):\n    return [x]\n"
+
+
+def session_sequence(ctx, scratch, subsets):
+    """a sequence of tracing sessions in ONE process, each through monkeytype.trace(config) with the shipped store logger, its
+    own SQLite file and its own custom filter (a subset of four functions; all four are called in every session): each store
+    holds exactly the functions its session's filter accepted - nothing a previous session saw"""
+    import importlib
+    import monkeytype
+    from monkeytype.config import DefaultConfig
+    from monkeytype.db.sqlite import SQLiteStore
+    tag = "%d_%d" % (os.getpid(), session_sequence.n)
+    session_sequence.n += 1
+    d = os.path.join(scratch, "sess" + tag)
+    os.makedirs(d)
+    name = "c17sess" + tag
+    open(os.path.join(d, name + ".py"), "w").write(SESSION_SRC)
+    sys.path.insert(0, d)
+    spec = ["SESSIONS", [sorted(s) for s in subsets]]
+    try:
+        importlib.invalidate_caches()
+        mod = importlib.import_module(name)
+        fns = {n: getattr(mod, n) for n in ("count", "label", "price", "total")}
+        ctx.case(spec, len({frozenset(s) for s in subsets}) > 1, ["session-sequence"])
+        for i, accepted in enumerate(subsets):
+            db = os.path.join(d, f"s{i}.sqlite3")
+            codes = {fns[n].__code__ for n in accepted}
+
+            class Cfg(DefaultConfig):
+                def trace_store(self):
+                    return SQLiteStore.make_store(db)
+
+                def code_filter(self):
+                    return lambda c: c in codes
+
+            with monkeytype.trace(Cfg()):
+                for f in fns.values():
+                    f(i)
+            con = sqlite3.connect(db)
+            got = {r[0] for r in con.execute("select qualname from monkeytype_call_traces where module = ?", (name,))}
+            other = con.execute("select count(*) from monkeytype_call_traces where module != ?", (name,)).fetchone()[0]
+            con.close()
+            if got - set(accepted) or other:
+                return ctx.fail("C17/custom-filter-rejected-function-logged", spec,
+                                f"session {i} (filter accepts {sorted(accepted)}): its store holds {sorted(got)} (+{other} rows of other modules); rejected but stored: {sorted(got - set(accepted))}")
+            if set(accepted) - got:
+                return ctx.fail("C17/admitted-call-not-recorded", spec, f"session {i} (filter accepts {sorted(accepted)}): its store holds {sorted(got)}")
+    finally:
+        sys.path.remove(d)
+        sys.modules.pop(name, None)
+
+
+session_sequence.n = 0
+
+
 def twin_modules(ctx, scratch, order_bits):
     """identical source in two packages; a custom filter accepts one of them only"""
     import importlib
@@ -560,6 +615,15 @@ def shard(ctx):
             core.run_hypothesis(ctx, f1, 120 if q else 1200, salt=1)
             core.run_hypothesis(ctx, f2, 25 if q else 200, salt=2)
 
+            def f4(ctx):
+                names = ["count", "label", "price", "total"]
+
+                @given(st.lists(st.lists(st.sampled_from(names), max_size=4, unique=True), min_size=2, max_size=5))
+                def test(subsets):
+                    session_sequence(ctx, scratch, subsets)
+                return test
+            core.run_hypothesis(ctx, f4, 12 if q else 150, salt=4)
+
             def f3(ctx):
                 @given(st.lists(st.sampled_from(["a", "b", "open", "close", "a"]), min_size=3, max_size=12))
                 def test(ops):
@@ -590,6 +654,8 @@ def replay(ctx, case):
             run_script(ctx, scratch, 0, case[1], case[2])
         elif case[0] == "NESTED":
             nested_sessions(ctx, case[1])
+        elif case[0] == "SESSIONS":
+            session_sequence(ctx, scratch, case[1])
         elif case[0] == "TWINMOD":
             twin_modules(ctx, scratch, case[1])
         elif case[0] == "FILTER":
